@@ -196,7 +196,7 @@ fn parse_signed_time_str(timestamp: &str) -> i64 {
     let timestamp_secs_us: i64 = timestamp[offset_timestamp..dot_idx]
         .parse::<i64>()
         .unwrap_or_default()
-        * (US_PER_SEC as i64);
+        .saturating_mul(US_PER_SEC as i64);
     let timestamp_fraction_us = if dot_idx < timestamp.len() {
         let timestamp_fraction_str = &timestamp[dot_idx + 1..];
         let mut len_fraction = timestamp_fraction_str.len();
@@ -216,7 +216,7 @@ fn parse_signed_time_str(timestamp: &str) -> i64 {
     } else {
         0
     };
-    let timestamp_us = timestamp_secs_us + timestamp_fraction_us;
+    let timestamp_us = timestamp_secs_us.saturating_add(timestamp_fraction_us);
     if timestamp_is_neg {
         -timestamp_us
     } else {
@@ -278,7 +278,9 @@ where
                         let loc_d_start = loc_d.1 + 1;
                         let loc_d_end = loc_d_start + (3 * (*data_len as usize)) - 1;
                         let data = if *data_len > 0 && loc_d_end < line.len() {
-                            hex_to_bytes(&line.as_str()[loc_d_start..loc_d_end])
+                            line.as_str()
+                                .get(loc_d_start..loc_d_end)
+                                .and_then(hex_to_bytes)
                         } else {
                             None
                         };
@@ -366,7 +368,9 @@ where
                         let loc_d_start = loc_d.1 + 1;
                         let loc_d_end = loc_d_start + (3 * (*data_len as usize)) - 1;
                         let data = if *data_len > 0 && loc_d_end < line.len() {
-                            hex_to_bytes(&line.as_str()[loc_d_start..loc_d_end])
+                            line.as_str()
+                                .get(loc_d_start..loc_d_end)
+                                .and_then(hex_to_bytes)
                         } else {
                             None
                         };
